@@ -534,8 +534,17 @@ def model_runs(ctx):
     runs.append(stmt("c14_exit", {"Task": "{t1}", "Fn": "{g1, g2}", "MaxArg": "2", "MaxOps": "3", "MaxEnv": "1",
                                   "Ops": '{"sleep", "raise", "addcb", "rmcb"}'}, {2, 3, 6, 7, 8, 9, 10, 11, 12, 13}))
     # names + callbacks + cancellation between two tasks (owner suspended in its exit protocol, head-of-line blocking)
+    # (round 4: add_done_callback may aim at a task that is suspended inside a done-callback - witness 20)
     runs.append(stmt("c14_unique_cb_cancel", {"Task": "{t1, t2}", "Fn": "{g1}", "MaxOps": "2", "MaxEnv": "1",
-                                              "Ops": '{"unique", "sleep", "cancel", "addcb"}'}, {5, 7, 8, 9, 11, 12, 13}))
+                                              "Ops": '{"unique", "sleep", "cancel", "addcb"}'},
+                     ({5, 7, 8, 9, 11, 12, 13, 14, 15, 16, 17, 18, 19}, 20)))
+    # round 4: done-callbacks that change the callback table of the ending task while they run (add / remove / add
+    # again, any function incl. themselves), hass-side cancellation at every park; visits: an untouched callback
+    # runs after the change (17), a callback added during the exit protocol never ran (18), a callback removed
+    # itself / ran though it had been removed meanwhile (19)
+    runs.append(stmt("c14_cbtab", {"Task": "{t1}", "Fn": "{g1, g2, g3}", "MaxArg": "2", "MaxOps": "4", "MaxEnv": "1",
+                                   "Ops": '{"sleep", "addcb", "cbtab"}'},
+                     ({2, 3, 6, 7, 8, 9, 10, 11, 12, 13, 14, 15, 16, 20}, 20)))
     # task graphs: create / cancel / wait
     runs.append(stmt("c14_graph", {"Task": "{t1, t2, t3}", "MaxOps": "2", "Ops": '{"create", "cancel", "wait"}'},
                      {3, 4, 5, 6, 8, 10, 11, 12, 13}))
@@ -584,7 +593,7 @@ def main(ctx):
     # the two families added in round 3 (service calls, callback tables of every kind of callable): fewer
     # crash-point re-runs per base scenario
     extra = {"call": ctx.pick(2, 30), "cbtable": ctx.pick(2, 30)}
-    caps = {"graph": cap, "call": ctx.pick(3, 40), "cbtable": ctx.pick(1, 10)}
+    caps = {"graph": cap, "call": ctx.pick(3, 40), "cbtable": ctx.pick(1, 10), "cbexit": ctx.pick(1, 10)}
     njobs = 12
     scns = []
     for j in range(njobs):
@@ -596,6 +605,10 @@ def main(ctx):
                 masked = k % 2 == 1
                 scns.append(gen_scenario(r, "%s/%s%d.%d" % ("m" if masked else "u", prof, j, k), masked, prof,
                                          idx=len(scns)))
+    # round 4 family, from a random stream of its own (the scenarios of the earlier families stay what they were)
+    r4 = random.Random(ctx.seed + 4)
+    nexit = ctx.pick(2, 30) * njobs
+    scns += [gen_scenario(r4, "%s/cbexit%d" % ("m" if k % 2 else "u", k), k % 2 == 1, "cbexit", idx=k) for k in range(nexit)]
     jobs = [{"scns": scns[j::njobs], "seed": ctx.seed * 100 + j, "cap": cap, "caps": caps} for j in range(njobs)]
     jobs[0]["scns"] = witnesses() + jobs[0]["scns"]
     # development on a shared machine: VERIF_NPROC=4 caps the check at about four processes
@@ -634,7 +647,10 @@ def main(ctx):
                        "lambda / bound method of a Python object / bound method of a pyscript class instance, args, behaviour "
                        "return|raise|sleep|sleep-then-raise) / remove_done_callback / wait / cancel(self|child) / sleep / unique / "
                        "raise / executor / call of a pyscript service (blocking or not, same or other context, both API forms; "
-                       "the called run has a program of its own)), three operation mixes (graph, call, cbtable), both "
+                       "the called run has a program of its own)), three operation mixes (graph, call, cbtable) + the family "
+                       "cbexit (done-callbacks that add / remove / re-add callbacks of the ending task while they run, at "
+                       "every position of the table, or another task doing so while a done-callback is suspended; every way "
+                       "of ending; a waiter looks at the outcome), both "
                        "subsystems; each base run is followed by one re-run per recorded suspension point (sleep, task.wait, "
                        "blocked in a service call, sleep inside a done-callback) x injection "
                        "(hass-side reaper_cancel, task.cancel from a controller task, raise after the resumption), capped per "
@@ -692,13 +708,51 @@ def main(ctx):
     if any(not v["invoked"] for v in kinds.values()) or not exact or not calls["returned"] or not calls["non_blocking"] \
             or not calls["caller_owned_name_or_callback"]:
         raise MachineryFailure("vacuous coverage (callable kinds / exact removals / service calls): %s %s %s" % (kinds, exact, calls))
+    # round 4 family, counted from the recordings (coverage only, no verdict)
+    xt = {"callback_removes_itself": 0, "callback_removes_another": 0, "callback_adds_new": 0,
+          "callback_adds_registered_again": 0, "other_task_changes_table_during_exit": 0,
+          "outcome_seen_by_a_waiter": 0, "changing_callback_not_last": 0}
+    for c in gen:
+        table, began, touched, waits, ncb = {}, set(), set(), {}, {}
+        for ln in c["trace"]:
+            if ln["k"] == "cb":
+                began.add(ln["t"])
+                ncb[ln["t"]] = ncb.get(ln["t"], 0) + 1
+                xt["changing_callback_not_last"] += ln["t"] in touched and ncb.get("x" + ln["t"]) is None
+                if ln["t"] in touched:
+                    ncb["x" + ln["t"]] = 1
+            elif ln["k"] == "cbx":
+                touched.add(ln["v"])
+                if ln["x"] == "rm":
+                    xt["callback_removes_itself" if ln["g"] == ln["f"] else "callback_removes_another"] += 1
+                else:
+                    xt["callback_adds_registered_again" if ln["g"] in table.get(ln["v"], ()) else "callback_adds_new"] += 1
+                    table.setdefault(ln["v"], set()).add(ln["g"])
+            elif ln["k"] == "op" and ln["op"] == "addcb":
+                table.setdefault(ln["v"], set()).add(ln["f"])
+            if ln["k"] == "op" and ln["op"] in ("addcb", "rmcb") and ln["v"] in began:
+                xt["other_task_changes_table_during_exit"] += 1
+                touched.add(ln["v"])
+            if ln["k"] == "op" and ln["op"] == "wait":
+                waits[ln["t"]] = ln["v"]
+            if ln["k"] == "res" and ln["w"] != "-" and waits.get(ln["t"]) in touched:
+                xt["outcome_seen_by_a_waiter"] += 1
+    ctx.cov["exit_table_changes"] = xt
+    st5 = ctx.cov.get("selftest_exit_table", {})
+    if any(not v for v in xt.values()) or not st5.get("exit_table_change_drops_later_callbacks") \
+            or not st5.get("exit_table_change_replaces_outcome"):
+        if not nmask:
+            raise MachineryFailure("vacuous coverage (callback table changed during the exit protocol): %s %s" % (xt, st5))
     ctx.cov["bounds"] = {"tasks": 6, "callback_functions": 12, "names": 1, "contexts": 2, "ops_per_task": 7}
     for c in (base[:1] + inj[:1]):
         ctx.sample({"id": c["id"], "legacy": c["scn"]["legacy"], "events": c["scn"]["events"], "point": c["scn"].get("point"),
                     "trace_lines": len(c["trace"]), "verdict": why.get(c["id"], "accepted")})
     ctx.assumptions += [
         "add/remove_done_callback aim at the caller itself or at a child in the step that created it, within one global "
-        "context: changing the callback table of a task that is already running its done-callbacks is not specified",
+        "context; when the callback table of a task changes while that task already runs its done-callbacks (by one of "
+        "these callbacks or by another task), the statement does not say whether the function whose entry was changed "
+        "still runs / with which of its argument versions (the model allows every choice, at most once); all other "
+        "callbacks must run exactly once, the call must not raise and the task keeps its outcome",
         "whether the remaining done-callbacks run after a cancellation hit a suspended done-callback is not specified "
         "(the model allows both); the cleanup is required in every case",
         "cancel/add_done_callback/wait of a finished task are skipped by the worker (TLC checks the target is done)",
